@@ -31,6 +31,7 @@ THEOREMS = [
     'AbacusVerif.Staging.staging_rows_aligned',
     'AbacusVerif.Staging.ids_sorted',
     'AbacusVerif.Staging.pinds_points_to_host',
+    'AbacusVerif.Staging.staged_pinds_point_to_host',
     'AbacusVerif.Staging.already_sorted_noop',
     'AbacusVerif.Staging.concat_rows',
 ]
